@@ -13,6 +13,17 @@
    [code_rechecks] below is what the code in the tree does now; the other value is kept so that the
    theorem about the code as it was found (C15_unique_id_refuted) stays stated and checked.
 
+   Processes. Every thread belongs to a process ([proc c t]). The semaphore operations carry SEM_UNDO (sem/sem.c): the
+   kernel keeps, per process, the adjustment [adj p] it will add to the value when the process goes away (semop(-1) adds
+   1 to it, semop(+1) subtracts 1). [Join p] is a process starting while the site runs: its start-up (main_init.go)
+   attaches the shared memory and calls cmbbs.PasswdInit with no handle yet; the semaphore exists, so semget with
+   IPC_CREAT|IPC_EXCL fails with EEXIST and the process only fetches the handle — [passwd_init true v = v]: the value is
+   not touched, whatever the other processes are doing. [Die p] is process p going away (exit or SIGKILL) at any moment:
+   none of its calls that have not returned ever returns ([kill]: what they had written stays written), and the kernel
+   applies the adjustment: value := value + adj p. That the adjustment is 1 exactly for the process whose call is inside
+   and 0 for every other one — so that a death releases the lock when and only when it was held there — is again a
+   theorem (Props: C15_undo_adjustment), not built into the step relation.
+
    tryCleanUser (between the existence check and the lock, only when no free slot is visible) is not
    part of this model: the harness keeps .fresh recent so that it is a no-op (expiry belongs to C03). *)
 From Verif Require Import Base.Common Gen.Consts_default.
@@ -45,12 +56,16 @@ Inductive pc : Type :=
 | PUnlock (k : nat)      (* record written — hook "reg.beforeUnlock" *)
 | PUnlockErr (e : Z)     (* failed inside the critical section; deferred unlock pending *)
 | PDoneOk (k : nat)      (* returned nil; the account is in slot k *)
-| PDoneErr (e : Z).      (* returned an error *)
+| PDoneErr (e : Z)       (* returned an error *)
+| PDead                  (* its process went away before it wrote anything; never returns *)
+| PDeadW (k : nat)       (* its process went away between SetUserID and the .PASSWDS write of slot k *)
+| PDeadOk (k : nat).     (* its process went away after the record was written, before it could return *)
 
 Record cfg : Type := mkCfg {
   nslots : nat;               (* MAX_USERS (run_case takes it from Gen/Consts_default.v) *)
   recheck : bool;
-  uid : nat -> list Z         (* the id thread t registers *)
+  uid : nat -> list Z;        (* the id thread t registers *)
+  proc : nat -> nat           (* the process thread t runs in *)
 }.
 
 Record st : Type := mkSt {
@@ -58,7 +73,8 @@ Record st : Type := mkSt {
   sem : option nat;           (* ghost: the thread whose semop(-1) was granted last and has not posted yet; no step reads it *)
   semv : nat;                 (* the value of the passwd semaphore (semctl GETVAL); the only thing PasswdLock looks at *)
   idx : nat -> list Z;
-  pwd : nat -> list Z
+  pwd : nat -> list Z;
+  adj : nat -> Z              (* the SEM_UNDO adjustment the kernel holds for each process *)
 }.
 
 Definition updf {A} (f : nat -> A) (k : nat) (v : A) : nat -> A := fun x => if Nat.eqb x k then v else f x.
@@ -71,7 +87,9 @@ Definition exists_id (n : nat) (tab : nat -> list Z) (id : list Z) : bool :=
 Definition find_empty (n : nat) (tab : nat -> list Z) : option nat :=
   find (fun k => is_empty (tab k)) (seq 0 n).
 
-Definition set_pc (s : st) (t : nat) (p : pc) : st := mkSt (updf (pcs s) t p) (sem s) (semv s) (idx s) (pwd s).
+Definition set_pc (s : st) (t : nat) (p : pc) : st := mkSt (updf (pcs s) t p) (sem s) (semv s) (idx s) (pwd s) (adj s).
+(* the SEM_UNDO bookkeeping of one semop of thread t *)
+Definition adj_op (c : cfg) (s : st) (t : nat) (d : Z) : nat -> Z := updf (adj s) (proc c t) (adj s (proc c t) + d).
 
 (* one step of thread t *)
 Definition step_thread (c : cfg) (s : st) (t : nat) : option st :=
@@ -81,7 +99,7 @@ Definition step_thread (c : cfg) (s : st) (t : nat) : option st :=
       else Some (set_pc s t PLock)
   | PLock =>
       match semv s with
-      | S v => Some (mkSt (updf (pcs s) t (if recheck c then PRecheck else PFind)) (Some t) v (idx s) (pwd s))
+      | S v => Some (mkSt (updf (pcs s) t (if recheck c then PRecheck else PFind)) (Some t) v (idx s) (pwd s) (adj_op c s t 1))
       | O => None                                                            (* blocked in semop(-1) *)
       end
   | PRecheck =>
@@ -92,12 +110,15 @@ Definition step_thread (c : cfg) (s : st) (t : nat) : option st :=
       | Some k => Some (set_pc s t (PSetID k))
       | None => Some (set_pc s t (PUnlockErr E_NOSLOT))
       end
-  | PSetID k => Some (mkSt (updf (pcs s) t (PWrite k)) (sem s) (semv s) (updf (idx s) k (uid c t)) (pwd s))
-  | PWrite k => Some (mkSt (updf (pcs s) t (PUnlock k)) (sem s) (semv s) (idx s) (updf (pwd s) k (uid c t)))
-  | PUnlock k => Some (mkSt (updf (pcs s) t (PDoneOk k)) None (S (semv s)) (idx s) (pwd s))      (* semop(+1) *)
-  | PUnlockErr e => Some (mkSt (updf (pcs s) t (PDoneErr e)) None (S (semv s)) (idx s) (pwd s))  (* the deferred semop(+1) *)
+  | PSetID k => Some (mkSt (updf (pcs s) t (PWrite k)) (sem s) (semv s) (updf (idx s) k (uid c t)) (pwd s) (adj s))
+  | PWrite k => Some (mkSt (updf (pcs s) t (PUnlock k)) (sem s) (semv s) (idx s) (updf (pwd s) k (uid c t)) (adj s))
+  | PUnlock k => Some (mkSt (updf (pcs s) t (PDoneOk k)) None (S (semv s)) (idx s) (pwd s) (adj_op c s t (-1)))      (* semop(+1) *)
+  | PUnlockErr e => Some (mkSt (updf (pcs s) t (PDoneErr e)) None (S (semv s)) (idx s) (pwd s) (adj_op c s t (-1)))  (* the deferred semop(+1) *)
   | PDoneOk _ => None
   | PDoneErr _ => None
+  | PDead => None
+  | PDeadW _ => None
+  | PDeadOk _ => None
   end.
 
 (* semop(2) is never restarted after a signal handler ran (the Go runtime preempts with signals): a thread waiting
@@ -109,18 +130,48 @@ Definition step_intr (s : st) (t : nat) : option st :=
   | _ => None
   end.
 
+(* cmbbs.PasswdInit() in a process that has no handle yet (cmbbs.Sem == nil), on a semaphore whose value is v.
+   [ex] = a semaphore set for PASSWDSEM_KEY exists already.
+   not ex: semget(IPC_CREAT|IPC_EXCL) creates it, SETVAL 1.
+   ex:     semget fails with EEXIST, semget again without IPC_CREAT: the handle, nothing else. *)
+Definition passwd_init (ex : bool) (v : nat) : nat := if ex then v else 1%nat.
+
+(* a process starts while the site runs *)
+Definition step_join (s : st) (p : nat) : option st :=
+  Some (mkSt (pcs s) (sem s) (passwd_init true (semv s)) (idx s) (pwd s) (adj s)).
+
+(* what becomes of a call when its process goes away *)
+Definition kill (p : pc) : pc :=
+  match p with
+  | PWrite k => PDeadW k
+  | PUnlock k => PDeadOk k
+  | PDoneOk _ | PDoneErr _ | PDeadW _ | PDeadOk _ => p
+  | _ => PDead
+  end.
+
+(* process p goes away (exit, SIGKILL): exit_sem adds its adjustment to the value (never below 0) and forgets it *)
+Definition step_die (c : cfg) (s : st) (p : nat) : option st :=
+  Some (mkSt (fun t => if Nat.eqb (proc c t) p then kill (pcs s t) else pcs s t)
+             (match sem s with Some h => if Nat.eqb (proc c h) p then None else Some h | None => None end)
+             (Z.to_nat (Z.of_nat (semv s) + adj s p))
+             (idx s) (pwd s) (updf (adj s) p 0)).
+
 Inductive act : Type :=
 | Step (t : nat)
-| Intr (t : nat).
+| Intr (t : nat)
+| Join (p : nat)
+| Die (p : nat).
 
 Definition step (c : cfg) (s : st) (a : act) : option st :=
   match a with
   | Step t => step_thread c s t
   | Intr t => step_intr s t
+  | Join p => step_join s p
+  | Die p => step_die c s p
   end.
 
-(* PasswdInit: SETVAL 1 *)
-Definition init_st (tab : nat -> list Z) : st := mkSt (fun _ => PCheck) None 1%nat tab tab.
+(* the first process created the semaphore: PasswdInit on the create path *)
+Definition init_st (tab : nat -> list Z) : st := mkSt (fun _ => PCheck) None (passwd_init false 0%nat) tab tab (fun _ => 0).
 
 (* a schedule is a list of actions; an action that is not enabled is skipped *)
 Definition step_skip (c : cfg) (s : st) (a : act) : st := match step c s a with Some s' => s' | None => s end.
@@ -133,8 +184,15 @@ Fixpoint replay (c : cfg) (sch : list act) (s : st) : option st :=
   | a :: r => match step c s a with Some s' => replay c r s' | None => None end
   end.
 
-(* schedule numbers: t >= 0 is a step of thread t, -(t+1) an interrupted wait of thread t *)
-Definition act_of_Z (z : Z) : act := if z <? 0 then Intr (Z.to_nat (- z - 1)) else Step (Z.to_nat z).
+(* schedule numbers: 0 <= t < JOINZ is a step of thread t, -(t+1) an interrupted wait of thread t,
+   JOINZ + p process p starting, DIEZ + p process p going away *)
+Definition JOINZ : Z := 2000000.
+Definition DIEZ : Z := 3000000.
+Definition act_of_Z (z : Z) : act :=
+  if z <? 0 then Intr (Z.to_nat (- z - 1))
+  else if z <? JOINZ then Step (Z.to_nat z)
+  else if z <? DIEZ then Join (Z.to_nat (z - JOINZ))
+  else Die (Z.to_nat (z - DIEZ)).
 
 (* replay of an observed trace given as schedule numbers, with observation points: the number [OBS] in the schedule
    is not a step — it records the value of the semaphore at that moment (the driver reads semctl(GETVAL) there) *)
@@ -168,6 +226,9 @@ Definition pc_code (p : pc) : list Z :=
   match p with
   | PDoneOk k => [1; Z.of_nat (S k)]          (* the uid is slot + 1 *)
   | PDoneErr e => [2; e]
+  | PDead => [3; 0]                           (* its process went away *)
+  | PDeadOk k => [3; Z.of_nat (S k)]          (* ... after it had written slot k (what the driver saw at reg.beforeUnlock) *)
+  | PDeadW k => [4; Z.of_nat (S k)]           (* ... between the two writes (no schedule point there: the driver never produces it) *)
   | _ => [0; 0]
   end.
 
@@ -175,18 +236,23 @@ Definition pc_code (p : pc) : list Z :=
    result: 0 :: (per thread: code, uid|error) ++ [-1] ++ index ids ++ [-1] ++ .PASSWDS ids
              ++ [-1] ++ semaphore values at the OBS marks ++ [-1; final semaphore value];
    status 3 7 = a scheduled step was not enabled.
-   Threads of a later phase of a multi-phase scenario are simply threads that take their first step later. *)
+   Threads of a later phase of a multi-phase scenario are simply threads that take their first step later.
+   case [[2]; process of each thread; ids; table; schedule] is the same with the threads spread over processes
+   (op 1 = all in process 0); only [Die] looks at the process of a thread. *)
+Definition run_with (procs ids tab0 sch : list Z) : list Z :=
+  let idl := dec_strs (length ids) ids in
+  let tabl := dec_strs (length tab0) tab0 in
+  let c := mkCfg (Z.to_nat ptttype.MAX_USERS) code_rechecks (fun t => nth t idl []) (fun t => Z.to_nat (nth t procs 0)) in
+  match replay_obs c sch (init_st (fun k => nth k tabl [])) with
+  | None => [ST_ERR; 7]
+  | Some (s, obs) => ST_OK :: flat_map (fun t => pc_code (pcs s t)) (seq 0 (length idl)) ++ [-1]
+                    ++ enc_tab (nslots c) (idx s) ++ [-1] ++ enc_tab (nslots c) (pwd s)
+                    ++ [-1] ++ obs ++ [-1; Z.of_nat (semv s)]
+  end.
+
 Definition run_case (args : list (list Z)) : list Z :=
   match args with
-  | [[1]; ids; tab0; sch] =>
-      let idl := dec_strs (length ids) ids in
-      let tabl := dec_strs (length tab0) tab0 in
-      let c := mkCfg (Z.to_nat ptttype.MAX_USERS) code_rechecks (fun t => nth t idl []) in
-      match replay_obs c sch (init_st (fun k => nth k tabl [])) with
-      | None => [ST_ERR; 7]
-      | Some (s, obs) => ST_OK :: flat_map (fun t => pc_code (pcs s t)) (seq 0 (length idl)) ++ [-1]
-                        ++ enc_tab (nslots c) (idx s) ++ [-1] ++ enc_tab (nslots c) (pwd s)
-                        ++ [-1] ++ obs ++ [-1; Z.of_nat (semv s)]
-      end
+  | [[1]; ids; tab0; sch] => run_with [] ids tab0 sch
+  | [[2]; procs; ids; tab0; sch] => run_with procs ids tab0 sch
   | _ => [ST_BADCASE]
   end.
